@@ -34,6 +34,8 @@ def mk_structure(t, n, strat):
         i, j = n - 1, (n - 1) // 2
         need = sorted(set(r * n + c for r in list(range(j + 1)) + [i] for c in range(j + 1)))
         obl.append({'kind': 'depends', 'region': 'L', 'cell': i * n + j, 'ns': 'A', 'cells': need})
+    if t == 'f64':
+        obl += [{'kind': 'no_narrowing', 'region': 'L', 'cells': n * n}, {'kind': 'no_narrowing', 'region': 'U', 'cells': n * n}]
     return Witness('lustruct_%s_%s_%d' % (t, strat, n), 'lu.' + strat + '.structure', {'type': t, 'n': n, 'strategy': strat}, wit, '', [treg('A', t, [n, n]), treg('L', t, [n, n], 'out'), treg('U', t, [n, n], 'out')],
                    [{'mod': 'wit', 'fn': '@W@', 'args': ['A', 'L', 'U']}], obl)
 
